@@ -4,7 +4,7 @@ import ast
 from ..core.loader import AnalysisError, own_nodes, norm, enclosing_stmt
 from ..core import astq
 from ..core import nodekinds as NK
-from ..core.cfg import ENTRY
+from ..core.cfg import ENTRY, guards_of
 from . import common as K
 
 EXPLANATION = (
@@ -29,6 +29,7 @@ def run(ctx):
     ctx.each(r19d, ctx, repo)
     ctx.each(r19e, ctx, repo)
     ctx.each(r19f, ctx, repo)
+    ctx.each(r19g, ctx, repo)
 
 
 def _walk_loop(fi):
@@ -201,3 +202,112 @@ def r19f(ctx, repo):
     lst = ast.unparse(app[0].func.value)
     rets = [r for r in own_nodes(fi.node) if isinstance(r, ast.Return) and r.value is not None]
     ctx.check(all(lst in [ast.unparse(e) for e in (r.value.elts if isinstance(r.value, ast.Tuple) else [r.value])] for r in rets), "R19f", fi, rets[0], "the dependency list is returned", "parse_function does not return the dependency list it built")
+
+
+def _accept_conditions(fi, loop):
+    """
+    Acceptance tests of the validation walk: for every `assert T` -> T, for every `if C: raise` -> not C, each together with
+    the conditions under which the test is reached inside the loop.  -> list of (stmt, reach Cond guards, accept expr, negate)
+    """
+    def branch_guards(st):
+        """conditions of the enclosing if/elif branches only (not of earlier asserts or early exits)"""
+        g = []
+        child, parent = st, getattr(st, "_parent", None)
+        while parent is not None and parent is not loop:
+            if isinstance(parent, ast.If):
+                if any(child is x for x in parent.body):
+                    g.append((parent.test, True))
+                elif any(child is x for x in parent.orelse):
+                    g.append((parent.test, False))
+            child, parent = parent, getattr(parent, "_parent", None)
+        return g
+
+    out = []
+    for s in ast.walk(loop):
+        if isinstance(s, ast.Assert):
+            out.append((s, branch_guards(s), s.test, False))
+        elif isinstance(s, ast.If) and s.body and isinstance(s.body[-1], ast.Raise) and not s.orelse:
+            out.append((s, branch_guards(s), s.test, True))
+    return out
+
+
+def r19g(ctx, repo):
+    from ..core import boolx as B
+    from ..core.cfg import guards_of as _g
+
+    ctx.rule("R19g", "polarity and content of every test of the validator (truth tables): the raw string is accepted only if it has no '__' and is shorter than the limit; a node is accepted only if it is an allowed kind; a Constant only if numeric; a Call only if its callee is a plain Name AND that name is in supported_functions AND it has no keywords; a Name that is not a supported function is reported as a dependency. sdiv fills 0 exactly where the numerator is 0; visit_BinOp replaces exactly the Div operators")
+    fi = repo.func("function_parser", "parse_function")
+    p = fi.params[0]
+
+    def accept_of(stmt):
+        if isinstance(stmt, ast.Assert):
+            return B.of(stmt.test)
+        c = B.of(stmt.test)
+        return B.Cond(lambda env, c=c: not c(env), c.atoms)
+
+    pre = [s for s in fi.node.body if isinstance(s, (ast.Assert, ast.If)) and p in ast.unparse(s.test if isinstance(s, (ast.Assert, ast.If)) else s) and (isinstance(s, ast.Assert) or (s.body and isinstance(s.body[-1], ast.Raise)))]
+    d = [s for s in pre if "__" in ast.unparse(s.test)]
+    ok = len(d) == 1 and B.implies(accept_of(d[0]), B.parse_cond("not ('__' in %s)" % p))
+    ctx.check(ok, "R19g", fi, d[0] if d else fi.node, "accepted only without a double underscore", "the double-underscore guard does not accept exactly the strings without '__' (accept condition: `%s`): strings containing a double underscore reach eval" % (ast.unparse(d[0].test) if d else "missing"), stmt_text="guard:dunder")
+    ln = [s for s in pre if "len(%s)" % p in ast.unparse(s.test)]
+    okl = len(ln) == 1 and isinstance(ln[0], ast.Assert) and isinstance(ln[0].test, ast.Compare) and isinstance(ln[0].test.ops[0], (ast.Lt, ast.LtE)) and ast.unparse(ln[0].test.left) == "len(%s)" % p and isinstance(ln[0].test.comparators[0], ast.Constant)
+    ctx.check(okl, "R19g", fi, ln[0] if ln else fi.node, "accepted only below the length limit", "the length guard is not `len(%s) < <limit>`" % p, stmt_text="guard:length")
+    loop = _walk_loop(fi)
+    n = loop.target.id
+    tests = _accept_conditions(fi, loop)
+
+    def find(pred):
+        return [(s, g, t, neg) for s, g, t, neg in tests if pred(ast.unparse(t))]
+
+    def check(name, found, want_accept, want_reach, why):
+        if len(found) != 1:
+            ctx.fail("R19g", fi, loop, "the validator's test for %s was not found exactly once (%d)" % (name, len(found)), stmt_text="test-missing:%s" % name)
+            return
+        s, g, t, neg = found[0]
+        acc = B.of(t)
+        if neg:
+            acc = B.Cond(lambda env, c=acc: not c(env), acc.atoms)
+        # "accepted only if": the acceptance condition may be stricter than the stated one, never weaker; it must be reached by every node of the stated kind
+        ok = B.implies(acc, B.parse_cond(want_accept)) and ((not g) if want_reach is None else B.implies(B.parse_cond(want_reach), B.cond(g)))
+        ctx.check(ok, "R19g", fi, s, "%s: accepted iff %s" % (name, want_accept), "the validator's test for %s accepts under `%s%s` reached when %s; expected accept iff `%s` for every node with `%s`: %s" % (name, "not " if neg else "", ast.unparse(t)[:90], [("%s" % ast.unparse(a)[:40], b) for a, b in g], want_accept, want_reach, why), stmt_text="test:%s" % name)
+
+    name_dep = "isinstance(%s, ast.Name) and %s.id not in supported_functions" % (n, n)
+    not_dep = "not (isinstance(%s, ast.Name) and not (%s.id in supported_functions))" % (n, n)
+    check("node kind", find(lambda t: "_allowed_nodes" in t), "isinstance(%s, _allowed_nodes)" % n, None, "a construct outside the allowed kinds reaches eval")
+    check("constants", find(lambda t: "%s.value" % n in t), "isinstance(%s.value, (int, float))" % n, "%s and isinstance(%s, ast.Constant)" % (not_dep, n), "a string or bytes constant reaches eval")
+    check("call target", find(lambda t: "%s.func" % n in t), "isinstance(%s.func, ast.Name) and %s.func.id in supported_functions" % (n, n), "%s and not isinstance(%s, ast.Constant) and isinstance(%s, ast.Call)" % (not_dep, n, n), "a call to an unlisted function (or through an attribute / subscript / call result) is accepted and executed")
+    check("call keywords", find(lambda t: "%s.keywords" % n in t), "not %s.keywords" % n, "%s and not isinstance(%s, ast.Constant) and isinstance(%s, ast.Call)" % (not_dep, n, n), "keyword arguments are accepted")
+    deps = [c for c in ast.walk(loop) if isinstance(c, ast.Call) and isinstance(c.func, ast.Attribute) and c.func.attr == "append"]
+    okd = len(deps) == 1 and ast.unparse(deps[0].args[0]) == "%s.id" % n and B.equivalent(B.cond(guards_of(enclosing_stmt(deps[0]), stop=loop)), B.parse_cond(name_dep.replace("not in", "in").replace("%s.id in" % n, "not %s.id in" % n) if False else "isinstance(%s, ast.Name) and not (%s.id in supported_functions)" % (n, n)))
+    ctx.check(okd, "R19g", fi, enclosing_stmt(deps[0]) if deps else loop, "every non-function name is a dependency", "the dependency list does not receive node.id exactly for the Names that are not supported functions", stmt_text="deps")
+    # sdiv
+    sd = repo.func("function_parser", "sdiv")
+    num, den = sd.params[:2]
+    rets = [r for r in own_nodes(sd.node) if isinstance(r, ast.Return)]
+    oks = len(rets) >= 1
+    for r in rets:
+        c = r.value
+        good = isinstance(c, ast.Call) and ast.unparse(c.func) == "np.divide" and [ast.unparse(a) for a in c.args[:2]] == [num, den]
+        if good:
+            w, o = astq.kwarg(c, "where"), astq.kwarg(c, "out")
+            good = w is not None and B.equivalent(B.of(w), B.parse_cond("not (%s == 0)" % num)) and o is not None and isinstance(o, ast.Call) and ast.unparse(o.func) in ("np.zeros_like", "np.zeros")
+        ctx.check(good, "R19g", sd, r, "sdiv = numerator / denominator with 0 exactly where the numerator is 0", "`%s` is not np.divide(%s, %s, out=<zeros>, where=%s != 0): division no longer returns 0 when the numerator is 0 (or returns 0 elsewhere)" % (norm(r)[:90], num, den, num))
+        oks = oks and good
+    # transformer polarity
+    vb = repo.func("function_parser", "_DivTransformer.visit_BinOp")
+    node = vb.params[1]
+    rets = [r for r in own_nodes(vb.node) if isinstance(r, ast.Return)]
+    keep = [r for r in rets if ast.unparse(r.value) == node]
+    repl = [r for r in rets if isinstance(r.value, ast.Call) and ast.unparse(r.value.func) == "ast.Call"]
+    okt = len(keep) == 1 and len(repl) == 1
+    if okt:
+        okt = B.equivalent(B.cond(guards_of(keep[0])), B.parse_cond("not isinstance(%s.op, ast.Div)" % node)) and B.equivalent(B.cond(guards_of(repl[0])), B.parse_cond("isinstance(%s.op, ast.Div)" % node))
+        body = [s for s in own_nodes(vb.node) if isinstance(s, ast.Assign)]
+        lhs = [s for s in body if ast.unparse(s.targets[0]) == "%s.left" % node]
+        rhs = [s for s in body if ast.unparse(s.targets[0]) == "%s.right" % node]
+        vis = {ast.unparse(s.targets[0]): ast.unparse(s.value) for s in body if isinstance(s.value, ast.Call) and ast.unparse(s.value.func) == "self.visit"}
+        okt = okt and len(lhs) == 1 and len(rhs) == 1 and vis.get(ast.unparse(lhs[0].value)) == "self.visit(%s.left)" % node and vis.get(ast.unparse(rhs[0].value)) == "self.visit(%s.right)" % node
+        # the replacement call receives the visited operands in order
+        args = [s for s in body if astq.is_name(s.targets[0], "args")]
+        okt = okt and len(args) == 1 and isinstance(args[0].value, ast.List) and [vis.get(ast.unparse(e)) for e in args[0].value.elts] == ["self.visit(%s.left)" % node, "self.visit(%s.right)" % node]
+    ctx.check(okt, "R19g", vb, keep[0] if keep else vb.node, "exactly the Div operators are replaced by sdiv(visited left, visited right); other operators keep their visited operands", "visit_BinOp does not replace exactly the `/` operators by sdiv(lhs, rhs) while re-attaching the visited operands to every other operator: some divisions keep Python's `/` (0/0 raises or gives nan) or other operators are turned into divisions", stmt_text="transformer")
